@@ -239,6 +239,29 @@ def by_name(ds):
     return [d[k] for k in sorted(d, key=lambda s: s.encode())]
 
 
+import threading
+
+_HOIST = threading.local()      # per cases file (rendered on a worker thread): long repeated sub-terms are defined once
+
+
+def hoist(t):
+    table = getattr(_HOIST, "table", None)
+    if table is None or len(t) < 150:
+        return t
+    return table.setdefault(t, "h%d" % len(table))
+
+
+def with_hoisting(render_items):
+    """render_items() -> list of term texts; returns the vernacular defining the hoisted sub-terms and the items"""
+    _HOIST.table = {}
+    try:
+        items = render_items()
+        defs = "".join("Definition %s := %s.\n" % (n, t) for (t, n) in _HOIST.table.items())
+    finally:
+        _HOIST.table = None
+    return defs, items
+
+
 def cq_machine(parts):
     via = "viamodule" in parts      # through Machine::from_module: definitions in the order given, duplicates kept
     order = (lambda ds: ds) if via else by_name
@@ -255,6 +278,7 @@ def cq_machine(parts):
     else:
         cmt = "None"
     glob = cq_fields_sorted(parts["globals"], cq_const)
+    acts, cmds, facts, structs, cmt, glob = (hoist(x) for x in (acts, cmds, facts, structs, cmt, glob))
     if via:
         return "(from_module (mkModuleV0 %s %s %s %s %s %s [] %s %s))" % (prog, labels, acts, cmds, facts, structs, cmt, glob)
     return "(mkMachine %s %s %s %s %s %s [] %s %s)" % (prog, labels, acts, cmds, facts, structs, cmt, glob)
@@ -395,7 +419,7 @@ def cq_case(case_sx, res):
     codec = cq_list(["(Some %s)" % cq_value(c[1]) if c[0] == "ok" else "None" for c in p["codec"]])
     return "(mkCase %s %s %s %s %s %s %s, %s)" % (
         cq_machine(mparts), cq_ctx(parts["ctx"]), cq_list([cq_value(v) for v in parts["stack"]]), parts["pc"][0],
-        cq_list([cq_answer(a) for a in parts["io"]]), codec, cq_entry(parts["entry"], int(parts["steps"][0])),
+        hoist(cq_list([hoist(cq_answer(a)) for a in parts["io"]])), codec, cq_entry(parts["entry"], int(parts["steps"][0])),
         cq_observation(res))
 
 
@@ -828,7 +852,7 @@ class Gen:
                 ops = [k]
             for oi, op in enumerate(ops):
                 for si, st in enumerate(stacks):
-                    if not thorough and (si + ki + oi) % 2:
+                    if not thorough and (si + ki + oi) % 3:
                         continue
                     for ci, c in enumerate(ctxs):
                         if not thorough and ci != (ki + si + oi) % len(ctxs):
@@ -1041,8 +1065,8 @@ def run(ctx):
 
     # when the proof or the translator no longer checks, search harder for a concrete failing input
     scale = 1 if (proved and regen_ok) else 5
-    per_kind = (100 if ctx.thorough else 12) * scale
-    n_policy = (400 if ctx.thorough else 60) * scale
+    per_kind = (80 if ctx.thorough else 10) * scale
+    n_policy = (300 if ctx.thorough else 60) * scale
     g = Gen(ctx.rng)
     gen_kinds = [k for k in kinds if k in known_kinds]
     cases = []
@@ -1123,8 +1147,8 @@ def run(ctx):
     pairs = [(c, r) for (c, r) in zip(cases, results) if r[1][0] != "panic"]
 
     def render(chunk):
-        items = [cq_case(c, r) for (c, r) in chunk]
-        return ("Definition cases : list (vcase * observation) := %s.\n"
+        defs, items = with_hoisting(lambda: [cq_case(c, r) for (c, r) in chunk])
+        return (defs + "Definition cases : list (vcase * observation) := %s.\n"
                 "Eval vm_compute in (mismatches (chk_case true 5000) cases).\n" % cq_list(items))
     mism = []
     cdir = os.path.join(vlib.BUILD, "cases", ctx.pid)
@@ -1136,7 +1160,7 @@ def run(ctx):
                 pass
     ctx.log("implementation ran %d cases in 2 profiles; evaluating the model" % len(cases))
     if proved or os.path.exists(os.path.join(vlib.COQ, "model", "VmHarness.vo")):
-        couts, chunks = vlib.coq_eval_sharded(ctx, "c25", header, pairs, render, shard=200 if ctx.thorough else 100)
+        couts, chunks = vlib.coq_eval_sharded(ctx, "c25", header, pairs, render, shard=100)
         base = 0
         for (rc, o), ch in zip(couts, chunks):
             v = vlib.parse_coq_value(o) if rc == 0 else None
